@@ -348,7 +348,7 @@ Section Histories.
 
   Lemma step_wf : forall st o, wf_state st -> wf_state (fst (step gen beh st o)).
   Proof.
-    intros st o H. destruct o as [k parent name ref|x| |x|rw|t e k names|t e rw]; cbn [step].
+    intros st o H. destruct o as [k parent name ref|x| |x|rw|t e k names|t e rw|t e k names]; cbn [step].
     - now apply create_wf.
     - destruct (live_ent st x); [|exact H]. destruct (st_rw st); [|exact H].
       destruct H as [Wf [We Ws]]. repeat split; cbn; auto. apply kill_forall; [|exact We]. intros e0 He. exact He.
@@ -357,10 +357,13 @@ Section Histories.
       + constructor; [apply supply_wf|exact Ws].
     - destruct (live_ent st x); exact H.
     - exact H.
-    - destruct (negb _); [exact H|].
+    - unfold other_session. destruct (negb _); [exact H|].
       pose proof (create_all_wf names (with_rw (with_proc st (new_proc beh t e)) true) k H) as H1.
       destruct (create_all _ _ _ _ _) as [st1 ok]. exact H1.
     - exact H.
+    - unfold other_session. destruct (negb _); [exact H|].
+      pose proof (create_all_wf names (with_rw (with_proc st (fork_child beh st t e)) true) k H) as H1.
+      destruct (create_all _ _ _ _ _) as [st1 ok]. exact H1.
   Qed.
 
   Lemma new_file_wf : forall t e, wf_state (new_file gen beh t e).
@@ -433,7 +436,7 @@ Section Stability.
 
   Lemma step_stable : forall st o, stable_step st (fst (step gen beh st o)).
   Proof.
-    intros st o. destruct o as [k parent name ref|x| |x|rw|t e k names|t e rw]; cbn [step].
+    intros st o. destruct o as [k parent name ref|x| |x|rw|t e k names|t e rw|t e k names]; cbn [step].
     - apply create_stable.
     - destruct (live_ent st x); [|apply stable_refl]. destruct (st_rw st); [|apply stable_refl].
       intros e0 He. cbn. destruct (kill_in _ [x] e0 He) as [H|H].
@@ -442,11 +445,15 @@ Section Stability.
     - cbn [draw fst snd]. destruct (st_rw st); cbn [fst]; intros e0 He; exists e0; (split; [exact He|apply keeps_refl]).
     - destruct (live_ent st x); apply stable_refl.
     - intros e0 He; exists e0; (split; [exact He|apply keeps_refl]).
-    - destruct (negb _); [apply stable_refl|].
+    - unfold other_session. destruct (negb _); [apply stable_refl|].
       pose proof (create_all_stable names (with_rw (with_proc st (new_proc beh t e)) true) k) as H1.
       destruct (create_all _ _ _ _ _) as [st1 ok]. cbn [fst] in *.
       intros e0 He. destruct (H1 e0 He) as [e1 [I1 K1]]. exists e1. split; [exact I1|exact K1].
     - intros e0 He; exists e0; (split; [exact He|apply keeps_refl]).
+    - unfold other_session. destruct (negb _); [apply stable_refl|].
+      pose proof (create_all_stable names (with_rw (with_proc st (fork_child beh st t e)) true) k) as H1.
+      destruct (create_all _ _ _ _ _) as [st1 ok]. cbn [fst] in *.
+      intros e0 He. destruct (H1 e0 He) as [e1 [I1 K1]]. exists e1. split; [exact I1|exact K1].
   Qed.
 
   Lemma run_from_stable : forall h st, stable_step st (run_from gen beh st h).
@@ -490,17 +497,20 @@ Section Stability.
 
   Lemma step_as_created : forall st o, ids_as_created st -> ids_as_created (fst (step gen beh st o)).
   Proof.
-    intros st o H. destruct o as [k parent name ref|x| |x|rw|t e k names|t e rw]; cbn [step].
+    intros st o H. destruct o as [k parent name ref|x| |x|rw|t e k names|t e rw|t e k names]; cbn [step].
     - now apply create_as_created.
     - destruct (live_ent st x); [|exact H]. destruct (st_rw st); [|exact H].
       unfold ids_as_created. cbn. apply (kill_forall (fun e => e_id e = e_id0 e)); [|exact H]. intros e0 He. exact He.
     - cbn [draw fst snd]. destruct (st_rw st); exact H.
     - destruct (live_ent st x); exact H.
     - exact H.
-    - destruct (negb _); [exact H|].
+    - unfold other_session. destruct (negb _); [exact H|].
       pose proof (create_all_as_created names (with_rw (with_proc st (new_proc beh t e)) true) k H) as H1.
       destruct (create_all _ _ _ _ _) as [st1 ok]. exact H1.
     - exact H.
+    - unfold other_session. destruct (negb _); [exact H|].
+      pose proof (create_all_as_created names (with_rw (with_proc st (fork_child beh st t e)) true) k H) as H1.
+      destruct (create_all _ _ _ _ _) as [st1 ok]. exact H1.
   Qed.
 
   Theorem ids_stay_as_created : forall t e h, ids_as_created (run gen beh t e h).
@@ -534,13 +544,16 @@ Section FileId.
 
   Theorem file_id_changes_only_by_forceId : forall st o, o <> OForceId -> st_file (fst (step gen beh st o)) = st_file st.
   Proof.
-    intros st o H. destruct o as [k parent name ref|x| |x|rw|t e k names|t e rw]; cbn [step]; try reflexivity.
+    intros st o H. destruct o as [k parent name ref|x| |x|rw|t e k names|t e rw|t e k names]; cbn [step]; try reflexivity.
     - apply create_file.
     - destruct (live_ent st x); [|reflexivity]. destruct (st_rw st); reflexivity.
     - contradiction.
     - destruct (live_ent st x); reflexivity.
-    - destruct (negb _); [reflexivity|].
+    - unfold other_session. destruct (negb _); [reflexivity|].
       pose proof (create_all_file names (with_rw (with_proc st (new_proc beh t e)) true) k) as H1.
+      destruct (create_all _ _ _ _ _) as [st1 ok]. cbn [fst] in *. exact H1.
+    - unfold other_session. destruct (negb _); [reflexivity|].
+      pose proof (create_all_file names (with_rw (with_proc st (fork_child beh st t e)) true) k) as H1.
       destruct (create_all _ _ _ _ _) as [st1 ok]. cbn [fst] in *. exact H1.
   Qed.
 End FileId.
@@ -553,6 +566,8 @@ Section Uniqueness.
       the createId calls the history actually makes: different calls give different ids *)
   Variable P : list Z * nat -> Prop.
   Hypothesis INJ : forall d d', P d -> P d' -> supd gen d = supd gen d' -> d = d'.
+  (** and about the library: a forked child does not continue with a copy of its parent's engine *)
+  Hypothesis NF : fork_copies_engine beh = false.
 
   Notation sd := (supd gen).
 
@@ -744,16 +759,19 @@ Section Uniqueness.
 
   Lemma step_ext : forall st o, draws_ext st (fst (step gen beh st o)).
   Proof.
-    intros st o. destruct o as [k parent name ref|x| |x|rw|t e k names|t e rw]; cbn [step].
+    intros st o. destruct o as [k parent name ref|x| |x|rw|t e k names|t e rw|t e k names]; cbn [step].
     - apply create_ext.
     - destruct (live_ent st x); [|apply draws_ext_refl]. destruct (st_rw st); now exists [].
     - cbn [draw fst snd]. destruct (st_rw st); now exists [(p_seed (st_proc st), p_next (st_proc st))].
     - destruct (live_ent st x); apply draws_ext_refl.
     - now exists [].
-    - destruct (negb _); [apply draws_ext_refl|].
+    - unfold other_session. destruct (negb _); [apply draws_ext_refl|].
       pose proof (create_all_ext names (with_rw (with_proc st (new_proc beh t e)) true) k) as H1.
       destruct (create_all _ _ _ _ _) as [st1 ok]. cbn [fst] in *. exact H1.
     - now exists [].
+    - unfold other_session. destruct (negb _); [apply draws_ext_refl|].
+      pose proof (create_all_ext names (with_rw (with_proc st (fork_child beh st t e)) true) k) as H1.
+      destruct (create_all _ _ _ _ _) as [st1 ok]. cbn [fst] in *. exact H1.
   Qed.
 
   Lemma run_from_ext : forall h st, draws_ext st (run_from gen beh st h).
@@ -839,7 +857,7 @@ Section Uniqueness.
     (forall s, In s (op_seeds o) -> ~ In s Q) -> allP (fst (step gen beh st o)) ->
     Inv (op_seeds o ++ Q) None (fst (step gen beh st o)).
   Proof.
-    intros Q st o H HS. destruct o as [k parent name ref|x| |x|rw|t e k names|t e rw]; cbn [step op_seeds later_procs seeds_of map app fst snd].
+    intros Q st o H HS. destruct o as [k parent name ref|x| |x|rw|t e k names|t e rw|t e k names]; cbn [step op_seeds later_procs seeds_of map app fst snd].
     - now apply create_inv.
     - intros _. destruct (live_ent st x); [|exact H]. destruct (st_rw st); [|exact H].
       destruct H as [HD HH]. split; cbn; [exact HD|now apply hi_kill].
@@ -853,7 +871,7 @@ Section Uniqueness.
       + exact HH.
     - intros _. destruct (live_ent st x); exact H.
     - intros _. exact H.
-    - pose proof (HS (seed_of beh t e) (or_introl eq_refl)) as HN.
+    - unfold other_session. pose proof (HS (seed_of beh t e) (or_introl eq_refl)) as HN.
       destruct H as [HD HH].
       destruct (negb _); [intros _; split; [now apply di_weaken|exact HH]|].
       assert (H0 : Inv (seed_of beh t e :: Q) (Some (st_proc st)) (with_rw (with_proc st (new_proc beh t e)) true)).
@@ -864,6 +882,14 @@ Section Uniqueness.
     - intros _. pose proof (HS (seed_of beh t e) (or_introl eq_refl)) as HN.
       destruct H as [HD HH]. split; cbn; [|exact HH].
       apply (di_forget _ (st_proc st)). now apply di_new.
+    - unfold fork_child. rewrite NF. unfold other_session. pose proof (HS (seed_of beh t e) (or_introl eq_refl)) as HN.
+      destruct H as [HD HH].
+      destruct (negb _); [intros _; split; [now apply di_weaken|exact HH]|].
+      assert (H0 : Inv (seed_of beh t e :: Q) (Some (st_proc st)) (with_rw (with_proc st (new_proc beh t e)) true)).
+      { split; cbn; [now apply di_new|exact HH]. }
+      pose proof (create_all_inv names _ _ _ k H0) as H1.
+      destruct (create_all _ _ _ _ _) as [st1 ok]. cbn [fst] in *. intros AP.
+      destruct (H1 AP) as [HD1 HH1]. split; cbn; [exact (di_restore _ _ _ _ _ HD1)|exact HH1].
   Qed.
 
   Lemma later_procs_cons : forall o r, later_procs (o :: r) = later_procs [o] ++ later_procs r.
@@ -935,6 +961,7 @@ End Uniqueness.
     processes — the ids ever stored in the file are pairwise distinct, and the ids held now (the file's and
     every entity's, deleted ones included) are pairwise distinct and among them. *)
 Theorem ids_unique_given_supply : forall gen beh t e h,
+  fork_copies_engine beh = false ->
   NoDup (seeds_of beh (procs_of t e h)) ->
   (forall d d', In d (st_draws (run gen beh t e h)) -> In d' (st_draws (run gen beh t e h)) ->
                 supd gen d = supd gen d' -> d = d') ->
@@ -942,8 +969,8 @@ Theorem ids_unique_given_supply : forall gen beh t e h,
   NoDup (st_seen st) /\ NoDup (st_file st :: map e_id (st_ents st)) /\
   incl (st_file st :: map e_id (st_ents st)) (st_seen st).
 Proof.
-  intros gen beh t e h ND INJ.
-  apply (run_unique gen beh (fun d => In d (st_draws (run gen beh t e h))) INJ t e h ND).
+  intros gen beh t e h NF ND INJ.
+  apply (run_unique gen beh (fun d => In d (st_draws (run gen beh t e h))) INJ NF t e h ND).
   intros d Hd. exact Hd.
 Qed.
 
@@ -996,7 +1023,7 @@ Section Seeds.
     nodupb (st_seen (run gen code_today t e1 [OCreateOther t e2 KBlock [name]])) = false.
   Proof.
     intros t e1 e2 name. unfold run, run_from, new_file, new_proc.
-    cbn [fold_left step fst snd kind_eqb orb negb with_proc with_rw st_proc st_rw st_ents st_next st_file st_seen st_draws
+    cbn [fold_left step other_session fst snd kind_eqb orb negb with_proc with_rw st_proc st_rw st_ents st_next st_file st_seen st_draws
          create_all create request_ok container_ok siblings filter existsb andb dup_frame_reidentifies code_today
          draw p_seed p_next add_ent].
     cbn [nodupb existsb]. rewrite String.eqb_refl. reflexivity.
@@ -1029,19 +1056,19 @@ Section Seeds.
       engine gives different ids to the createId calls made (the probabilistic part: 122 random bits), THEN ids are
       unique across all processes and sessions, start times being arbitrary *)
   Theorem unique_across_processes_repaired : forall beh t e h,
-    seed_uses_entropy beh = true ->
+    seed_uses_entropy beh = true -> fork_copies_engine beh = false ->
     NoDup (map snd (procs_of t e h)) ->
     (forall d d', In d (st_draws (run gen beh t e h)) -> In d' (st_draws (run gen beh t e h)) ->
                   supd gen d = supd gen d' -> d = d') ->
     let st := run gen beh t e h in
     NoDup (st_seen st) /\ NoDup (st_file st :: map e_id (st_ents st)).
   Proof.
-    intros beh t e h HE ND INJ st.
+    intros beh t e h HE NF ND INJ st.
     assert (NS : NoDup (seeds_of beh (procs_of t e h))).
     { assert (Eq : seeds_of beh (procs_of t e h) = seeds_of repaired (procs_of t e h)).
       { unfold seeds_of. apply map_ext. intros p. unfold seed_of. now rewrite HE. }
       rewrite Eq. now apply seeds_repaired_nodup. }
-    destruct (ids_unique_given_supply gen beh t e h NS INJ) as [A [B _]]. now split.
+    destruct (ids_unique_given_supply gen beh t e h NF NS INJ) as [A [B _]]. now split.
   Qed.
 
   (** the runtime experiment after the repair, under the same two assumptions *)
@@ -1082,15 +1109,15 @@ Qed.
 (** with the two repairs in place, distinct seeds and an engine that does not repeat itself on the calls made,
     the model's observation after every history is the one the property demands *)
 Theorem model_meets_spec_when_repaired : forall gen beh t e h,
-  dup_frame_reidentifies beh = false ->
+  dup_frame_reidentifies beh = false -> fork_copies_engine beh = false ->
   NoDup (seeds_of beh (procs_of t e h)) ->
   (forall d d', In d (st_draws (run gen beh t e h)) -> In d' (st_draws (run gen beh t e h)) ->
                 supd gen d = supd gen d' -> d = d') ->
   observe (run gen beh t e h) = spec_observe (run gen beh t e h).
 Proof.
-  intros gen beh t e h NR ND INJ. apply observe_meets_spec.
+  intros gen beh t e h NR NF ND INJ. apply observe_meets_spec.
   destruct (all_ids_wellformed gen beh t e h) as [Wf [We _]].
-  destruct (ids_unique_given_supply gen beh t e h ND INJ) as [A _].
+  destruct (ids_unique_given_supply gen beh t e h NF ND INJ) as [A _].
   pose proof (ids_stay_as_created gen beh NR t e h) as S.
   split; [exact Wf|]. split; [|exact A]. intros x Hx _.
   unfold ids_as_created in S. rewrite Forall_forall in We. rewrite Forall_forall in S.
@@ -1141,13 +1168,15 @@ Qed.
 
 (** the two hypotheses in decidable form: pairwise different seeds, pairwise different ids for the calls made *)
 Theorem ids_unique_checked : forall gen beh t e h,
+  fork_copies_engine beh = false ->
   nodupzb (seeds_of beh (procs_of t e h)) = true ->
   nodupb (map (supd gen) (st_draws (run gen beh t e h))) = true ->
   let st := run gen beh t e h in
   NoDup (st_seen st) /\ NoDup (st_file st :: map e_id (st_ents st)) /\
   incl (st_file st :: map e_id (st_ents st)) (st_seen st).
 Proof.
-  intros gen beh t e h H1 H2. apply ids_unique_given_supply.
+  intros gen beh t e h NF H1 H2. apply ids_unique_given_supply.
+  - exact NF.
   - now apply nodupzb_sound.
   - apply NoDup_map_inv_inj. now apply nodupb_spec.
 Qed.
@@ -1161,10 +1190,67 @@ Definition nv_history : list op :=
    OCreate KGroup (Some 0%nat) "g" None; OCreate KSource (Some 0%nat) "r" None; OCreate KSource (Some 9%nat) "r" None;
    OCreate KFeature (Some 6%nat) "" (Some 4%nat); OCreate KArray (Some 0%nat) "a" None; ODelete 4; OCreate KArray (Some 0%nat) "a" None;
    OForceId; OSetter 0; OReopen false; OCreate KBlock None "x" None; OForceId; OReopen true;
-   OCreateOther 100 2 KBlock ["y"%string; "z"%string]; OCreateOther 100 3 KSection ["s"%string; "u"%string]; ONewSession 100 4 true; OCreate KBlock None "w" None].
+   OCreateOther 100 2 KBlock ["y"%string; "z"%string]; OCreateOther 100 3 KSection ["s"%string; "u"%string]; ONewSession 100 4 true; OCreate KBlock None "w" None;
+   OFork 100 5 KBlock ["k1"%string]; OFork 100 6 KSection ["k2"%string; "k3"%string]; OCreate KBlock None "v" None].
 
 (** the hypotheses of the uniqueness theorem are satisfiable: they hold for this history and the concrete engine *)
 Lemma nv_unique : let st := run toy_gen repaired 100 1 nv_history in
   NoDup (st_seen st) /\ NoDup (st_file st :: map e_id (st_ents st)) /\
   incl (st_file st :: map e_id (st_ents st)) (st_seen st).
 Proof. apply ids_unique_checked; vm_compute; reflexivity. Qed.
+
+(* ------------------------------------------------------------------------------------------ *)
+(** * G. fork *)
+Section Fork.
+  Variable gen : list Z -> nat -> Z.
+  Variable beh : behaviour.
+
+  (** once the library re-seeds in a forked child, a forked child is just another process *)
+  Theorem fork_step_repaired : fork_copies_engine beh = false ->
+    forall st t e k names, step gen beh st (OFork t e k names) = step gen beh st (OCreateOther t e k names).
+  Proof. intros NF st t e k names. cbn [step]. unfold fork_child. now rewrite NF. Qed.
+
+  (** while the child inherits the engine, for EVERY engine and whatever the clocks and the entropy source say:
+      two children forked by the process that created the file give their first entities the same id; and a child's
+      first entity gets the id the parent's next entity gets *)
+  Theorem fork_collision_refuted : fork_copies_engine beh = true ->
+    (forall t e t1 e1 t2 e2 n1 n2,
+       nodupb (st_seen (run gen beh t e [OFork t1 e1 KBlock [n1]; OFork t2 e2 KSection [n2]])) = false) /\
+    (forall t e t1 e1 n1 n2,
+       nodupb (st_seen (run gen beh t e [OFork t1 e1 KBlock [n1]; OCreate KSection None n2 None])) = false).
+  Proof.
+    intros FC. split; intros; unfold run, run_from, new_file, new_proc;
+      cbn [fold_left step fst snd]; unfold fork_child, other_session; rewrite FC;
+      cbn [kind_eqb orb negb andb with_proc with_rw st_proc st_rw st_ents st_next st_file st_seen st_draws
+           create_all create request_ok container_ok siblings filter existsb app e_live e_kind e_parent opt_nat_eqb
+           draw p_seed p_next add_ent fst snd];
+      cbn [nodupb existsb]; rewrite String.eqb_refl; reflexivity.
+  Qed.
+
+  (** the fork experiment (separate files): two children share their first id *)
+  Theorem fork_common_today : fork_copies_engine beh = true ->
+    forall t e pre c1 c2 cs kc kp, fork_common gen beh t e pre (c1 :: c2 :: cs) (S kc) kp = true.
+  Proof.
+    intros FC t e pre c1 c2 cs kc kp. unfold fork_common, fork_ids. rewrite FC. cbn [flat_map].
+    apply negb_true_iff. rewrite app_assoc.
+    apply (nodupb_false_dup (supply gen (seed_of beh t e) pre)).
+    - apply in_or_app. right. cbn [seq map]. now left.
+    - apply in_or_app. left. cbn [seq map]. now left.
+  Qed.
+
+  (** ... and after the repair it finds nothing, under the same two assumptions as everywhere: the seeds differ
+      (entropy) and the engine gives different ids to the calls made *)
+  Theorem fork_common_repaired : fork_copies_engine beh = false ->
+    forall t e pre cs kc kp,
+    NoDup (map (supd gen) (map (fun k => (seed_of beh t e, k)) (seq 0 (pre + kp)) ++
+                           flat_map (fun c => map (fun k => (seed_of beh (fst c) (snd c), k)) (seq 0 kc)) cs)) ->
+    fork_common gen beh t e pre cs kc kp = false.
+  Proof.
+    intros NF t e pre cs kc kp. unfold fork_common, fork_ids. rewrite NF.
+    assert (E : flat_map (fun c => first_ids gen (seed_of beh (fst c) (snd c)) kc) cs =
+                map (supd gen) (flat_map (fun c => map (fun k => (seed_of beh (fst c) (snd c), k)) (seq 0 kc)) cs)).
+    { induction cs as [|c r IH]; [reflexivity|]. cbn [flat_map]. rewrite map_app, IH. f_equal.
+      unfold first_ids. rewrite map_map. reflexivity. }
+    intros H. apply negb_false_iff. apply nodupb_spec. rewrite E. rewrite map_app, map_map in H. exact H.
+  Qed.
+End Fork.
